@@ -72,12 +72,25 @@ let cause_of = function
   | "InvalidType" -> InvalidType | "ReceiverIsSender" -> ReceiverIsSender | "TooSmall" -> TooSmall
   | "TooBig" -> TooBig | "Layout" -> Layout | c -> failwith ("bad cause " ^ c)
 
+(* the values the harness passes to AssignAttribute, by code (props/C04/harness/extra.go attrValue):
+   floats in thousandths, strings by code *)
+let attr_value = function
+  | "0" -> VInt (zz "5") | "1" -> VInt (zz "-1") | "2" -> VInt (zz "11")
+  | "3" -> VFloat (zz "500") | "4" -> VFloat (zz "2000")
+  | "5" -> VStr (nm "5") | "6" -> VStr (nm "6")
+  | _ -> VOther
+
 (* layer-3 operations; the name argument of the signal constructors is not part of the model *)
 let parse_op3 = function
   | ["StdSetType"; a; t; f] -> StdSetType (hd_ a, oh t, bb f)
   | ["StdSetUnit"; a; u] -> StdSetUnit (hd_ a, oh u)
   | ["EnumSetEnum"; a; e; f] -> EnumSetEnum (hd_ a, oh e, bb f)
-  | ["Assign"; e; a; _; v] -> Assign (hd_ e, oh a, (if v = "-" then None else Some (cause_of v)))
+  | "Assign" :: e :: a :: code :: _ -> Assign (hd_ e, oh a, attr_value code)
+  | ["NewAttrString"] -> NewAttr AString
+  | ["NewAttrInt"; mn; mx] -> NewAttr (AInt (zz mn, zz mx))
+  | ["NewAttrFloat"; mn; mx] -> NewAttr (AFloat (zz mn, zz mx))
+  | "NewAttrEnum" :: vs -> NewAttr (AEnum (List.map nm vs))
+  | ["CloneAttr"; a] -> AttrClone (hd_ a)
   | ["RemoveAssign"; e; k] -> RemoveAssign (hd_ e, hd_ k)
   | ["RemoveAllAssign"; e] -> RemoveAllAssign (hd_ e)
   | ["BusSetBuilder"; b; c] -> BusSetBuilder (hd_ b, oh c)
@@ -174,13 +187,18 @@ let dump (s2 : state2) : string =
       else Some (z_of_pos h, Printf.sprintf "T%s:t=%s;r=%s;rn=%s" (ps h) t r rn)) (heap_msgs s) in
   let ext = sigitems @ muxitems @ msgitems @ refs "Rt" s3.type_refs @ refs "Ru" s3.unit_refs @ refs "Re" s3.enum_refs @ refs "Ra" s3.attr_refs
             @ refs "As" s3.assigns @ refs "Rc" s3.builder_refs
-            @ List.map (fun (b, c) -> (z_of_pos b, Printf.sprintf "Bb%s:%s" (ps b) (ps c))) (builder_list s3) in
+            @ List.map (fun (b, c) -> (z_of_pos b, Printf.sprintf "Bb%s:%s" (ps b) (ps c))) (builder_list s3)
+            @ List.map (fun (a, k) -> (z_of_pos a, Printf.sprintf "Ak%s:%s" (ps a) (match k with
+                | AString -> "s"
+                | AInt (mn, mx) -> Printf.sprintf "i,%s,%s" (zs mn) (zs mx)
+                | AFloat (mn, mx) -> Printf.sprintf "f,%s,%s" (zs mn) (zs mx)
+                | AEnum vs -> "e," ^ String.concat "+" (List.map ns vs)))) (attr_list s3) in
   (* the extension is printed grouped by kind, each group sorted by handle *)
   let grp tag = List.map snd (List.sort (fun (a, _) (b, _) -> BZ.compare a b)
       (List.filter (fun (_, x) -> String.length x >= 2 && String.sub x 0 2 = tag) ext)) in
   let grp1 c = List.map snd (List.sort (fun (a, _) (b, _) -> BZ.compare a b)
       (List.filter (fun (_, x) -> String.length x >= 1 && x.[0] = c && (String.length x < 2 || (x.[1] >= '0' && x.[1] <= '9'))) ext)) in
-  String.concat "|" (l1 :: grp1 'G' @ grp1 'X' @ grp1 'T' @ List.concat_map grp ["Rt"; "Ru"; "Re"; "Ra"; "As"; "Rc"; "Bb"])
+  String.concat "|" (l1 :: grp1 'G' @ grp1 'X' @ grp1 'T' @ List.concat_map grp ["Rt"; "Ru"; "Re"; "Ra"; "As"; "Rc"; "Bb"; "Ak"])
 
 (* ---- the layout model of the C01/C07 stream (three-way agreement on the geometry oracle) -------- *)
 module C1 = struct
